@@ -138,6 +138,7 @@ def run(ctx):
     runlevel.with_extra(ctx, "c01logdec", lambda: logdec_specs(ctx))
     runlevel.with_extra(ctx, "c01forcemesh", lambda: forced_poll_mesh_specs(ctx))
     runlevel.with_extra(ctx, "c01toggle", lambda: option_toggle_specs(ctx))
+    runlevel.with_extra(ctx, "c01typed", lambda: typed_start_specs(ctx))
     stats, samples = runlevel.pipe_replay(ctx, rep, "C01")
     fcov = runlevel.filter_events(ctx, rep, want_clauses=("in_box",))
     traces = runlevel.get_pool(ctx)
@@ -205,6 +206,22 @@ def forced_poll_mesh_specs(ctx):
             sp["x0_near"] = [rng.choice([0.01, -0.01, 0.002]) for _ in range(sp["D"])]
         sp["options"] = {"n_search": 32, "force_poll_mesh": True, "search_mesh_expand": rng.choice([0, 1, 1, 2]), "max_fun_evals": 110 if mode == "det" else 150,
                          "noise_final_samples": 0}
+        specs.append(sp)
+    return specs
+
+
+def typed_start_specs(ctx):
+    """The start point handed over in another floating type (float32 / float16 arrays, as data loaded from disk often is), decimal hard
+    bounds that this type cannot represent (+-0.2) and the optimum on or beyond a face: what is evaluated, logged and RETURNED must still
+    lie inside the (double precision) box."""
+    from .. import gen
+    rng = ctx.sub_rng("c01typed")
+    specs = []
+    for i in range(4 if ctx.quick else 24):
+        mode = ["det", "det", "decl", "det"][i % 4]
+        sp = gen.make_spec(rng, D=rng.choice([1, 2, 2, 3]), geom="decimal", mode=mode, cons=None, opt_loc=rng.choice(["on_bound", "outside"]), target=rng.choice(["quad", "abs"]))
+        sp["x0_dtype"] = ["float32", "float32", "float16", "float32"][i % 4]
+        sp["options"] = {"n_search": 32, "max_fun_evals": (sp["D"] + 40) if mode == "det" else 80, "noise_final_samples": 0}
         specs.append(sp)
     return specs
 
